@@ -81,7 +81,12 @@ class Hist:
         self._toks = toks
 
         if res == "halt":
-            self.v("C03", i, "block hook panicked: %s" % o.get("err", "")[:200])
+            err = o.get("err", "")
+            self.v("C03", i, "block hook panicked: %s" % err[:200])
+            if "insufficient deposit" in err or "deposit not found" in err or ("deposit for address" in err and "does not exist" in err):
+                # a payout, settlement or refund the escrow record of its subscriber does not cover: the record is no longer the sum of
+                # the unsettled parts of that account's subscriptions (somebody was charged beyond the deposit before this step)
+                self.v("C02", i, "a block hook could not take a payout/settlement/refund out of the subscriber's escrow record: %s" % err[:160])
             return
         if res == "rej":
             if o.get("same") is False:
@@ -380,6 +385,22 @@ class Hist:
                     po = self.payouts(prev).get(I(vals[4]["z"]))
                     if po and pay + fee != I(po["price"][1]):
                         self.v("C05", i, "hourly payout %d differs from the hourly price %s" % (pay + fee, po["price"][1]))
+                else:
+                    # metered usage: the cumulative charge of a per-gigabyte subscription is the per-gigabyte price on the
+                    # cumulative settled bytes, rounded up once
+                    sid = I(vals[5]["z"])
+                    if not hasattr(self, "metered_paid"):
+                        self.metered_paid = {}
+                    self.metered_paid[sid] = self.metered_paid.get(sid, 0) + pay + fee
+                    sb = self.subs(st).get(sid)
+                    if sb and sb["k"] == "node" and I(sb["gb"]) != 0:
+                        al = self.allocs(st).get((sid, sb["a"]))
+                        if al is not None:
+                            price = I(sb["dep"][1]) // I(sb["gb"])
+                            want = -((-price * I(al["u"])) // GB)
+                            if self.metered_paid[sid] != want:
+                                self.v("C05", i, "subscription %d: cumulative metered charge %d, but price %d/GB on %d settled bytes rounds up to %d" %
+                                       (sid, self.metered_paid[sid], price, I(al["u"]), want))
                 self.nt("C05")
         if kind == "node_subscribe":
             node = self.nodes(prev).get(toks[3].lower().split(":", 1)[1])
